@@ -94,10 +94,8 @@ def _hint_decomp(S, descending, what):
         QtS = _matmul_l(_tr_l(Qc), S)
         Dc = _matmul_l(QtS, Qc)
         off = [Dc[i][j].eqz(0) for i in range(n) for j in range(n) if i != j]
-        if off:
-            f = z3.simplify(z3.And(*off))
-            if not z3.is_true(f) and symx.space().check(z3.Not(f), timeout_ms=3000) != "unsat":
-                continue
+        if off and not symx.space().proved(z3.And(*off), timeout_ms=3000):
+            continue
         D, Q = Dc, Qc
         torch.KERNELS["_eig_used"] = hint
         break
@@ -132,7 +130,7 @@ def _svd_contract(A, legacy=False):
         fl = A._flat()
         G = [[fl[i * m + j] for j in range(m)] for i in range(m)]
         sym = z3.And(*[G[i][j].eqz(G[j][i]) for i in range(m) for j in range(i + 1, m)]) if m > 1 else z3.BoolVal(True)
-        if not z3.is_true(z3.simplify(sym)) and symx.space().check(z3.Not(sym)) != "unsat":
+        if not symx.space().proved(sym):
             raise ShimUnsupported("torch.svd stub needs a symmetric argument")
         hd = _hint_decomp(G, True, "svd_legacy")
         if hd is not None:
@@ -163,7 +161,7 @@ def _svd_contract(A, legacy=False):
         sig = torch.KERNELS["_eig_used"].get("sigma")
         S = []
         for pos, i in enumerate(order):
-            if sig is not None and symx.space().check(z3.Not((sig[i] * sig[i]).eqz(d[pos]))) == "unsat":
+            if sig is not None and symx.space().proved((sig[i] * sig[i]).eqz(d[pos])):
                 S.append(sig[i])
             else:
                 S.append(d[pos].sqrt())
@@ -346,6 +344,12 @@ def eigh(M, UPLO="L"):
         S = [[A[max(i, j)][min(i, j)] for j in range(n)] for i in range(n)]
     if any(isinstance(x, Sp) for r in S for x in r):
         raise LinAlgError("linalg.eigh: The algorithm failed to converge because the input matrix contained non-finite values.")
+    if all(isinstance(x, R) and x.conc and x.frac() == 0 for r in S for x in r):
+        # eigh(0): eigenvalues 0; any orthonormal basis is a valid answer - the identity is returned (stated: one valid kernel output)
+        L = T._make([R(0)] * n, (n,), M.dtype)
+        Vt = T._make([R(1) if i == j else R(0) for i in range(n) for j in range(n)], (n, n), M.dtype)
+        log("kernel", "eigh", M, (L, Vt), "zero")
+        return _core._NT("eigh", L, Vt)
     hd = _hint_decomp(S, False, "eigh")
     if hd is not None:
         d, U, _ = hd
